@@ -8,7 +8,8 @@ SCHEMA = os.path.join(VERIF, "schemas", "kinds.exp")
 DRV = os.path.join(VERIF, "harness", "cpp", "session_drv.cc")
 # a valid literal per attribute kind (instance #1 is a TGT)
 VALID = {"int": "7", "real": "2.5", "num": "3.5", "str": "'ab'", "bin": '"0F"', "bool": ".T.", "log": ".U.",
-         "enum": ".RED.", "ref": "#1", "sel": "LAB('q')", "li": "(1,2)", "lr": "(#1)"}
+         "enum": ".RED.", "ref": "#1", "sel": "LAB('q')", "li": "(1,2)", "lr": "(#1)",
+         "dstr": "'ab'", "dstr2": "'ab'", "dint": "7", "dint2": "7", "dreal2": "2.5"}
 HEAD = "ISO-10303-21;\n" + p21.HEADER % "KINDS" + "DATA;\n"
 TAIL = "ENDSEC;\nEND-ISO-10303-21;\n"
 
@@ -101,7 +102,8 @@ def fault_case(c):
     elif cl == "dup_id":
         txt, fid = "TGT(77)", 5
     elif cl == "bad_enum":
-        vals[pos - 1] = ".PURPLE." if k == "enum" else ".X."
+        vals[pos - 1] = {"unrelated": ".PURPLE." if k == "enum" else ".X.", "prefix": ".RE." if k == "enum" else ".TR.",
+                         "extension": ".REDD." if k == "enum" else ".TRUE.", "inner": ".RAD." if k == "enum" else ".Y."}[lit or "unrelated"]
         txt = "%s(%s)" % (ent, ",".join(vals))
     elif cl == "star_not_derived":
         vals[pos - 1] = "*"
